@@ -283,8 +283,15 @@ pub fn eval(c: &ImgCase) -> CaseOut {
             if files_ok.is_empty() {
                 None
             } else {
-                let p = files_ok[pool.below(files_ok.len() as u32) as usize].clone();
-                let d = pick_dir(&mut pool);
+                // a file - or, two times in five, a directory (its ".." entry then has to name the new parent: 0 for the
+                // root directory, also on FAT32)
+                let move_dir = !dirs_ok.is_empty() && pool.chance(40);
+                let p = if move_dir { dirs_ok[pool.below(dirs_ok.len() as u32) as usize].clone() } else { files_ok[pool.below(files_ok.len() as u32) as usize].clone() };
+                let mut d = pick_dir(&mut pool);
+                if move_dir && d.len() >= p.len() && d[..p.len()] == p[..] {
+                    // not into itself or below itself
+                    d = Vec::new();
+                }
                 let newname = format!("renamed by the library {}", pool.below(1000));
                 let (parent, name) = (p[..p.len() - 1].to_vec(), p[p.len() - 1].clone());
                 let mut moved = None;
@@ -304,7 +311,7 @@ pub fn eval(c: &ImgCase) -> CaseOut {
                 dp.push(newname);
                 let dps = dp.join("/");
                 Some((
-                    Mutation { what: format!("rename({:?} -> {:?})", ps, dps), affected_files: vec![p.clone(), dp.clone()], affected_dirs: vec![parent, d] },
+                    Mutation { what: format!("rename({:?} -> {:?})", ps, dps), affected_files: vec![p.clone(), dp.clone()], affected_dirs: if move_dir { vec![parent, d, p.clone(), dp.clone()] } else { vec![parent, d] } },
                     Box::new(move |s: &Session| {
                         let r = s.root();
                         r.rename(&ps, &r, &dps).map_err(|e| format!("{:?}", e))
@@ -561,6 +568,16 @@ fn check_diff(a: &Store, b: &Store, pre: &Decoded, post: &Decoded, mu: &Mutation
         if let Some(dn) = find_dir(pre, dp) {
             for (i, abs) in dn.slot_abs.iter().enumerate() {
                 slot_info.insert(*abs, (dn.slot_state[i], false));
+            }
+            // a directory that is itself being moved: its ".." entry names the new parent afterwards
+            if mu.affected_files.iter().any(|f| f == dp) {
+                for e in dn.entries.iter().filter(|e| e.short == *b"..         ") {
+                    for s in &e.slot_abs {
+                        if let Some(x) = slot_info.get_mut(s) {
+                            x.1 = true;
+                        }
+                    }
+                }
             }
             for e in &dn.entries {
                 let mut p = dp.clone();
